@@ -45,6 +45,8 @@ module Z :
 
   val min : coq_Z -> coq_Z -> coq_Z
 
+  val abs_N : coq_Z -> coq_N
+
   val to_nat : coq_Z -> nat
 
   val to_N : coq_Z -> coq_N
